@@ -10,7 +10,7 @@ CACHE = os.environ.get('VERIF_CACHE', os.path.join(ROOT, '.cache'))
 TEMPLATE = os.path.join(CACHE, 'kani-target')
 MEM_BUDGET_GB = float(os.environ.get('VERIF_MEM_GB', '54'))
 MAX_PAR = int(os.environ.get('VERIF_JOBS', '14'))
-MEM_CLASS = {'S': 3.0, 'M': 8.0, 'L': 16.0, 'XL': 28.0}
+MEM_CLASS = {'S': 3.0, 'M': 8.0, 'L': 12.0, 'XL': 28.0}
 KANI_FLAGS = ['-Z', 'unstable-options', '-Z', 'stubbing', '--no-memory-safety-checks',
               '--no-overflow-checks', '--no-assertion-reach-checks']
 FEATURES_VERIFY = 'verif-hooks,verif-models'
